@@ -1683,4 +1683,213 @@ theorem manager_roundtrip (m : Mgr) (hv : VarsOK m.tbl) (hp : PredShape m) :
     · show m0.ctx = false; rw [S0.ctx]
 
 
+deriving instance DecidableEq for Except
+
+/-! ### the full statement for file contents, and where the current code falls short -/
+
+/-- the roots of the file are `None`, or a container of references the file can resolve
+(constants included) -/
+def RootsResolvable (f : PickleFile) : Prop :=
+  ∀ u ∈ f.roots.values, u.natAbs = 1 ∨ ∃ e ∈ f.succ, e.id = u.natAbs
+
+/-- C12 for `BDD.load` at FULL strength (what the property text asks): every well-formed
+pickle content whose variables the loader accepts (no level gap left) loads without error
+into a manager satisfying the invariant, keeps the invariant, and — when the file names
+roots — returns them in the same container shape denoting, by variable name, what the file
+says.  No condition on `levels`, on constant roots, or on `roots` being present. -/
+def pickle_load_statement : Prop :=
+  ∀ (f : PickleFile) (levels : Bool) (tgt : Mgr), PickleWF f → RootsResolvable f →
+    Inv tgt → VarsBij tgt.tbl → tgt.ctx = false →
+    ∀ lm m1, loadVars levels f.vars.length f.vars [] tgt = (.ok lm, m1) → Contig m1.tbl →
+    ∃ roots' m', loadPickle f levels tgt = (.ok roots', m') ∧ Inv m' ∧
+      (f.roots ≠ .none →
+        RootsRel (fun u r => m'.tbl.Mem r ∧ ∀ α, denBy m'.tbl r α = evalPickle f u α) f.roots roots')
+
+/-- a pickle of the empty manager written without roots / with the root TRUE -/
+def fileNoRoots : PickleFile := { vars := [], succ := [⟨1, 0, none, none⟩], roots := .none }
+def fileConstRoot : PickleFile := { vars := [], succ := [⟨1, 0, none, none⟩], roots := .list [1] }
+
+theorem fileNoRoots_eq : dumpPickle {} .none = .ok fileNoRoots := by decide +kernel
+theorem fileConstRoot_eq : dumpPickle {} (.list [1]) = .ok fileConstRoot := by decide +kernel
+
+theorem wf_terminal_only (r : Roots) : PickleWF { vars := [], succ := [⟨1, 0, none, none⟩], roots := r } := by
+  have hf : ∀ k e, PEntry.find [(⟨1, 0, none, none⟩ : PEntry)] k = some e → k = 1 := by
+    intro k e h
+    have := PEntry.find_id h
+    have hm := List.mem_of_find?_eq_some h
+    simp at hm
+    subst hm
+    exact this.symm
+  refine ⟨⟨?_⟩, ?_, ?_⟩
+  · intro k e h h1; exact absurd (hf k e h) h1
+  · intro var i h; simp at h
+  · intro k e h h1; exact absurd (hf k e h) h1
+
+
+theorem varsBij_empty : VarsBij ({} : Mgr).tbl := by
+  intro v l
+  show ({} : TreeMap String Nat)[v]? = some l ↔ ({} : TreeMap Nat String)[l]? = some v
+  simp
+
+theorem contig_empty : Contig ({} : Mgr).tbl := by
+  intro v l h
+  have : ({} : TreeMap String Nat)[v]? = some l := h
+  simp at this
+
+theorem varsOK_empty : VarsOK ({} : Mgr).tbl :=
+  ⟨varsBij_empty, contig_empty, by
+    intro l h
+    have h0 : ({} : Mgr).tbl.nvars = 0 := by decide +kernel
+    rw [h0] at h; omega⟩
+
+/-- F2: a pickle written without roots does not load back (`TypeError`) -/
+theorem load_roots_none_raises : (loadPickle fileNoRoots true {}).1 = .error .type := by
+  decide +kernel
+
+/-- F11: a pickle whose roots include a constant does not load back (`KeyError`) -/
+theorem load_constant_root_raises : (loadPickle fileConstRoot true {}).1 = .error .key := by
+  decide +kernel
+
+theorem pickle_load_statement_false_F2 : ¬ pickle_load_statement := by
+  intro h
+  obtain ⟨r, m', e, _⟩ := h fileNoRoots true {} (wf_terminal_only _) (by intro u hu; simp [fileNoRoots, Roots.values] at hu)
+    Inv.init varsBij_empty rfl [] {} rfl contig_empty
+  have := load_roots_none_raises
+  rw [e] at this
+  cases this
+
+theorem pickle_load_statement_false_F11 : ¬ pickle_load_statement := by
+  intro h
+  obtain ⟨r, m', e, _⟩ := h fileConstRoot true {} (wf_terminal_only _)
+    (by intro u hu; simp [fileConstRoot, Roots.values] at hu; subst hu; exact Or.inl rfl)
+    Inv.init varsBij_empty rfl [] {} rfl contig_empty
+  have := load_constant_root_raises
+  rw [e] at this
+  cases this
+
+/-! #### F3: `levels=False` into another variable order -/
+
+/-- the function `b ∧ a` dumped from a manager with order `b < a` -/
+def fileBA : PickleFile :=
+  { vars := [("a", 1), ("b", 0)]
+    succ := [⟨1, 2, none, none⟩, ⟨2, 1, some (-1), some 1⟩, ⟨3, 0, some (-1), some 2⟩]
+    roots := .list [3] }
+
+/-- a fresh manager declaring `x < y` -/
+def mgr2 (x y : String) : Mgr :=
+  { tbl := { vars := (({} : TreeMap String Nat).insert x 0).insert y 1
+             l2v := (({} : TreeMap Nat String).insert 0 x).insert 1 y } }
+
+theorem mgr2_nodeFree (x y : String) : NodeFree (mgr2 x y) :=
+  ⟨fun u => by show ({} : TreeMap Nat Nd)[u]? = none; simp,
+   fun k => by show ({} : TreeMap (List Int) Nat)[k]? = none; simp,
+   fun k => by show ({} : TreeMap (List Int) Int)[k]? = none; simp,
+   by show 2 ≤ 2; decide,
+   by show (({} : TreeMap Nat Nat).insert 1 1).contains 1 = true; decide +kernel⟩
+
+theorem mgr2_vars (x y : String) (v : String) :
+    (mgr2 x y).tbl.vars[v]? = if v = y then some 1 else if v = x then some 0 else none := by
+  show ((({} : TreeMap String Nat).insert x 0).insert y 1)[v]? = _
+  rw [TreeMap.getElem?_insert, TreeMap.getElem?_insert]
+  by_cases h1 : v = y
+  · subst h1; simp
+  · have c1 : compare y v ≠ .eq := fun h => h1 (compare_eq_iff_eq.mp h).symm
+    by_cases h2 : v = x
+    · subst h2; simp [c1, h1]
+    · have c2 : compare x v ≠ .eq := fun h => h2 (compare_eq_iff_eq.mp h).symm
+      simp [c1, c2, h1, h2]
+
+theorem mgr2_l2v (x y : String) (l : Nat) :
+    (mgr2 x y).tbl.l2v[l]? = if l = 1 then some y else if l = 0 then some x else none := by
+  show ((({} : TreeMap Nat String).insert 0 x).insert 1 y)[l]? = _
+  rw [TreeMap.getElem?_insert, TreeMap.getElem?_insert]
+  by_cases h1 : l = 1
+  · subst h1; simp
+  · have c1 : compare 1 l ≠ .eq := fun h => h1 (compare_eq_iff_eq.mp h).symm
+    by_cases h2 : l = 0
+    · subst h2; simp
+    · have c2 : compare 0 l ≠ .eq := fun h => h2 (compare_eq_iff_eq.mp h).symm
+      simp [c1, c2, h1, h2]
+
+theorem mgr2_bij (x y : String) (hxy : x ≠ y) : VarsBij (mgr2 x y).tbl := by
+  intro v l
+  rw [mgr2_vars, mgr2_l2v]
+  by_cases h1 : v = y <;> by_cases h2 : v = x <;> by_cases h3 : l = 1 <;> by_cases h4 : l = 0 <;>
+    simp_all <;> (intro h; first | omega | exact absurd h.symm ‹_› | exact absurd h ‹_›)
+
+theorem mgr2_nvars (x y : String) (hxy : x ≠ y) : (mgr2 x y).tbl.nvars = 2 := by
+  show ((({} : TreeMap String Nat).insert x 0).insert y 1).size = 2
+  rw [TreeMap.size_insert, TreeMap.size_insert]
+  have c : compare x y ≠ .eq := fun h => hxy (compare_eq_iff_eq.mp h)
+  simp [TreeMap.contains_insert, c]
+
+theorem mgr2_contig (x y : String) (hxy : x ≠ y) : Contig (mgr2 x y).tbl := by
+  intro v l h
+  rw [mgr2_vars] at h
+  rw [mgr2_nvars x y hxy]
+  split at h
+  · cases h; decide
+  · split at h
+    · cases h; decide
+    · cases h
+
+abbrev mgrAB : Mgr := mgr2 "a" "b"
+abbrev mgrBA : Mgr := mgr2 "b" "a"
+theorem mgrAB_nodeFree : NodeFree mgrAB := mgr2_nodeFree _ _
+theorem mgrAB_vars (v : String) :
+    mgrAB.tbl.vars[v]? = if v = "b" then some 1 else if v = "a" then some 0 else none := mgr2_vars _ _ v
+theorem mgrAB_bij : VarsBij mgrAB.tbl := mgr2_bij _ _ (by decide)
+theorem mgrAB_contig : Contig mgrAB.tbl := mgr2_contig _ _ (by decide)
+
+theorem fileBA_wf : PickleWF fileBA := by
+  have hf : ∀ k e, PEntry.find fileBA.succ k = some e → k ≠ 1 →
+      (k = 2 ∧ e = ⟨2, 1, some (-1), some 1⟩) ∨ (k = 3 ∧ e = ⟨3, 0, some (-1), some 2⟩) := by
+    intro k e h h1
+    have hid := PEntry.find_id h
+    have hm := List.mem_of_find?_eq_some h
+    simp [fileBA] at hm
+    rcases hm with hm | hm | hm
+    · subst hm; exact absurd hid.symm h1
+    · subst hm; exact Or.inl ⟨hid.symm, rfl⟩
+    · subst hm; exact Or.inr ⟨hid.symm, rfl⟩
+  refine ⟨⟨?_⟩, ?_, ?_⟩
+  · intro k e h h1
+    rcases hf k e h h1 with ⟨rfl, rfl⟩ | ⟨rfl, rfl⟩
+    · exact ⟨-1, 1, rfl, rfl, by decide, by decide, by decide, Or.inl rfl, Or.inl rfl,
+        by decide, by decide⟩
+    · exact ⟨-1, 2, rfl, rfl, by decide, by decide, by decide, Or.inl rfl, Or.inr (by decide),
+        by decide, by decide⟩
+  · intro var i h
+    simp [fileBA] at h
+    rcases h with ⟨rfl, rfl⟩ | ⟨rfl, rfl⟩ <;> decide
+  · intro k e h h1
+    rcases hf k e h h1 with ⟨rfl, rfl⟩ | ⟨rfl, rfl⟩
+    · exact ⟨"a", by decide⟩
+    · exact ⟨"b", by decide⟩
+
+/-- what the current loader builds: node 3 at level 1 whose high child, node 2, is at level 0 -/
+theorem load_levels_false_unordered :
+    (loadPickle fileBA false mgrAB).2.tbl.node? 3 = some ⟨1, -1, 2⟩ ∧
+    (loadPickle fileBA false mgrAB).2.tbl.node? 2 = some ⟨0, -1, 1⟩ := by
+  decide +kernel
+
+theorem pickle_load_statement_false_F3 : ¬ pickle_load_statement := by
+  intro h
+  have hlm : (loadVars false 2 fileBA.vars [] mgrAB).1 = .ok [(0, 1), (1, 0)] := by decide +kernel
+  have hv : loadVars false fileBA.vars.length fileBA.vars [] mgrAB =
+      (.ok [(0, 1), (1, 0)], (loadVars false 2 fileBA.vars [] mgrAB).2) := by
+    rw [← hlm]; rfl
+  have hm1 : (loadVars false 2 fileBA.vars [] mgrAB).2 = mgrAB := by
+    simp [loadVars, fileBA, addVar, bind, M.bind', M.get, mgrAB_vars, pure, M.pure']
+  rw [hm1] at hv
+  obtain ⟨r, m', e, I, _⟩ := h fileBA false mgrAB fileBA_wf
+    (by intro u hu; simp [fileBA, Roots.values] at hu; subst hu; exact Or.inr ⟨_, by simp [fileBA]; right; right; rfl, rfl⟩)
+    mgrAB_nodeFree.inv mgrAB_bij rfl _ _ hv mgrAB_contig
+  obtain ⟨n3, n2⟩ := load_levels_false_unordered
+  rw [e] at n3 n2
+  have := I.wf.hi_lt 3 _ n3
+  rw [levelOf_node m'.tbl 2 _ (by decide) n2] at this
+  exact absurd this (by decide)
+
+
 end DD
